@@ -87,6 +87,65 @@ macro_rules! words {
                 }
             }
         }
+        // the provided adaptors an iterator type may override: nth / nth_back (what rev().skip(n), step_by use),
+        // last, count - from a fresh iterator and after one step from either end
+        for pre in 0..3u8 {
+            for n in 0..=seq.len() {
+                for which in 0..2u8 {
+                    $st.runs += 1;
+                    let mut it = $mk;
+                    let (mut lo, mut hi) = (0usize, seq.len());
+                    if pre == 1 && it.next().is_some() {
+                        lo += 1;
+                    }
+                    if pre == 2 && it.next_back().is_some() {
+                        hi -= 1;
+                    }
+                    let pre_s = ["", "next, ", "next_back, "][pre as usize];
+                    if which == 0 {
+                        let got = it.nth(n).map($proj);
+                        let want = if lo + n < hi { Some(seq[lo + n]) } else { None };
+                        let after = it.next().map($proj);
+                        let want_after = if lo + n + 1 < hi { Some(seq[lo + n + 1]) } else { None };
+                        if got != want || after != want_after {
+                            $st.bad(format!("{}: {}nth({}) yielded {:?} and then next() {:?}, expected {:?} and {:?} (list MRU-first {:?})", $name, pre_s, n, got, after, want, want_after, $expect));
+                        }
+                    } else {
+                        let got = it.nth_back(n).map($proj);
+                        let want = if n < hi - lo { Some(seq[hi - 1 - n]) } else { None };
+                        let after = it.next_back().map($proj);
+                        let want_after = if n + 1 < hi - lo { Some(seq[hi - 2 - n]) } else { None };
+                        let front = it.next().map($proj);
+                        let want_front = if n + 2 < hi - lo { Some(seq[lo]) } else { None };
+                        if got != want || after != want_after || front != want_front {
+                            $st.bad(format!("{}: {}nth_back({}) yielded {:?}, then next_back() {:?}, then next() {:?}; expected {:?}, {:?}, {:?} (list MRU-first {:?})", $name, pre_s, n, got, after, front, want, want_after, want_front, $expect));
+                        }
+                    }
+                }
+            }
+            $st.runs += 1;
+            let mut it = $mk;
+            let (mut lo, mut hi) = (0usize, seq.len());
+            if pre == 1 && it.next().is_some() {
+                lo += 1;
+            }
+            if pre == 2 && it.next_back().is_some() {
+                hi -= 1;
+            }
+            let last = it.last().map($proj);
+            let want_last = if lo < hi { Some(seq[hi - 1]) } else { None };
+            let mut it2 = $mk;
+            if pre == 1 {
+                it2.next();
+            }
+            if pre == 2 {
+                it2.next_back();
+            }
+            let cnt = it2.count();
+            if last != want_last || cnt != hi - lo {
+                $st.bad(format!("{}: after {:?} step(s) last() is {:?} and count() {}, expected {:?} and {} (list MRU-first {:?})", $name, pre, last, cnt, want_last, hi - lo, $expect));
+            }
+        }
     }};
 }
 
@@ -264,9 +323,35 @@ pub fn drain_arc<K: KeyT, V: ValT, A: BuildHasher, B: BuildHasher, C: BuildHashe
     v
 }
 
+/// flip the value of the item whose *yielded key* is the addressed one
+pub fn by_key<'a, K: KeyT + 'a, V: ValT + 'a, I: DoubleEndedIterator<Item = (&'a K, &'a mut V)>>(it: I, n: usize) -> bool {
+    let key = (n % 100) as u8;
+    let mut hit = false;
+    if n >= 200 {
+        for (k, v) in it {
+            if k.id() == key {
+                v.flip();
+                hit = true;
+            }
+        }
+    } else {
+        for (k, v) in it.rev() {
+            if k.id() == key {
+                v.flip();
+                hit = true;
+            }
+        }
+    }
+    hit
+}
+
 macro_rules! write_four {
     ($c:expr, $fam:expr, $n:expr, $iter_mut:ident, $iter_lru_mut:ident, $values_mut:ident, $values_lru_mut:ident) => {
         match $fam {
+            // n >= 100: the write is addressed by the key the iterator yields with the value (100 + key: walking
+            // from the back, 200 + key: from the front) - it must land in that key's entry
+            IterFam::IterMut if $n >= 100 => Ret::Bool(by_key($c.$iter_mut(), $n)),
+            IterFam::IterLruMut if $n >= 100 => Ret::Bool(by_key($c.$iter_lru_mut(), $n)),
             IterFam::IterMut => Ret::Bool($c.$iter_mut().nth($n).map(|(_, v)| v.flip()).is_some()),
             IterFam::IterLruMut => Ret::Bool($c.$iter_lru_mut().nth($n).map(|(_, v)| v.flip()).is_some()),
             IterFam::ValuesMut => Ret::Bool($c.$values_mut().nth($n).map(|v| v.flip()).is_some()),
